@@ -81,12 +81,13 @@ namespace va
           ref[i] = DT(s);
         }
         routes.push(cmp_arrays("apply", ref.data(), y.elements(), A.rows(), 1.0, 2 * tole * double(max_row_len(A))));
-        // apply with alpha onto an existing vector: y + alpha * A x
+        // apply with alpha into the already filled vector: the route documents ret as an output (it is formatted first),
+        // so the result is alpha * A x whatever ret contained
         Vec y2 = y.clone(LAFEM::CloneMode::Deep);
         apply(y2, x, op, cf, DT(-0.5));
-        vj::Value t = cmp_arrays("apply", ref.data(), y2.elements(), A.rows(), 0.5, 4 * tole * double(max_row_len(A)));
+        vj::Value t = cmp_arrays("apply", ref.data(), y2.elements(), A.rows(), -0.5, 4 * tole * double(max_row_len(A)));
         t["a"] = -1;
-        obs["applytwice"] = t;
+        obs["applyrep"] = t;
       }
       obs["routes"] = routes;
 
